@@ -271,6 +271,10 @@ class TileManager(object):
 
         :note: Returns _expire_timestamp by default.
         """
+        if self._expire_timestamp is not None:
+            # set explicitly (e.g. refresh_before of a seed task): takes precedence
+            # over the refresh_before option of the cache
+            return self._expire_timestamp
         if self._refresh_before:
             from mapproxy.seed.config import before_timestamp_from_options
             return before_timestamp_from_options(self._refresh_before)
